@@ -495,6 +495,11 @@ impl Deb822 {
         if self.0.children().count() > 0 {
             let mut builder = GreenNodeBuilder::new();
             builder.start_node(EMPTY_LINE.into());
+            let text = self.0.text().to_string();
+            if index.is_none() && !text.is_empty() && !text.ends_with('\n') {
+                // the last line of the file is not terminated: finish it before the blank line
+                builder.token(NEWLINE.into(), "\n");
+            }
             builder.token(NEWLINE.into(), "\n");
             builder.finish_node();
             to_insert.push(SyntaxNode::new_root_mut(builder.finish()).into());
